@@ -103,3 +103,28 @@ package generic
 //@   loop 1
 //@     invariant buf: samerg(p.Buf, self.v) && offset(p.Buf) == offset(self.v) && len(p.Buf) == self.l && self.t != thrift.ERROR
 //@     invariant cur: 0 <= p.Read && p.Read <= len(p.Buf) && 0 <= start && start <= p.Read
+
+//@ typeinv *Node as n = n != nil && windowif(n.t != thrift.ERROR, n.v, n.l)
+
+// replace: self's buffer becomes  self[0:l0] ++ n ++ self[l0+o.l:]  in a NEW allocation, where o is a window
+// inside self starting at l0; the old buffer, o and n are left untouched.
+//@ pure l0of(self *Node, o Node) int = offset(o.v) - offset(self.v)
+//@ spec (*Node).replace
+//@   props C04 C12
+//@   requires live: self.t != thrift.ERROR && n.t != thrift.ERROR && o.t != thrift.ERROR
+//@   requires inside: samerg(o.v, self.v) && offset(self.v) <= offset(o.v) && o.l >= 0 && o.l <= self.l && offset(o.v) + o.l <= offset(self.v) + self.l
+//@   ensures mismatch: o.t != n.t ==> r0 != nil && self.l == old(self.l) && offset(self.v) == old(offset(self.v)) && samerg(self.v, old(self.v))
+//@   ensures ok: o.t == n.t ==> r0 == nil && fresh(self.v) && self.l == old(self.l) - o.l + n.l
+//@   ensures head: o.t == n.t ==> forall i :: 0 <= i && i < old(l0of(self, o)) ==> byteat(self.v, i) == old(byteat(self.v, i))
+//@   ensures mid: o.t == n.t ==> forall i :: 0 <= i && i < n.l ==> byteat(self.v, old(l0of(self, o)) + i) == old(byteat(n.v, i))
+//@   ensures tail: o.t == n.t ==> forall i :: 0 <= i && i < old(self.l) - old(l0of(self, o)) - o.l ==> \
+//@       byteat(self.v, old(l0of(self, o)) + n.l + i) == old(byteat(o.v, o.l + i))
+//@   modifies self.v, self.l
+
+// Fork: same bytes in a new allocation.
+//@ spec (Node).Fork
+//@   props C04 C12
+//@   requires live: self.t != thrift.ERROR
+//@   ensures fresh: fresh(r0.v) && r0.l == self.l && r0.t == self.t && r0.et == self.et && r0.kt == self.kt
+//@   ensures bytes: forall i :: 0 <= i && i < self.l ==> byteat(r0.v, i) == byteat(self.v, i)
+//@   ensures valid: windowif(true, r0.v, r0.l)
